@@ -52,7 +52,7 @@ fn has_macro_expander(
         }
         _ => Err(ParseError {
             source: None,
-            pos: helper.pos_for(ided_expr.id).unwrap_or_default(),
+            pos: helper.argument_pos(ided_expr.id),
             msg: "invalid argument to has() macro".to_string(),
             expr_id: 0,
             source_info: None,
@@ -327,7 +327,7 @@ fn extract_ident(expr: IdedExpr, helper: &mut MacroExprHelper) -> Result<String,
         Expr::Ident(ident) => Ok(ident),
         _ => Err(ParseError {
             source: None,
-            pos: helper.pos_for(expr.id).unwrap_or_default(),
+            pos: helper.argument_pos(expr.id),
             msg: "argument must be a simple name".to_string(),
             expr_id: 0,
             source_info: None,
